@@ -440,7 +440,7 @@ def run(run_, ctx):
             outs = [("- => %s" % state0, [[L(ln, (0, 0))]]), ("- => %s" % one, [[L(ln, (1, 1))]]), ("- => %s" % two, [[L(ln, (2, 2))]]), ("... [loop bound]", [[L(ln, (3, None))]])]
         return {"outcomes": [{"text": t, "when": w} for t, w in sorted(outs)], "vars": {ln: [[ln, "1", True]]}, "truncated": False}
     upd, upds = by_role("update", False), by_role("update_str", False)
-    hasher_update = [f for f in sc.fns if "::key::hash::" in f.canon and f.name == "update" and f.impl_self]
+    hasher_update = [f for f in sc.fns if "::key::" in f.canon and f.name == "update" and (f.impl_self or "").split("<")[0].endswith("Fnv1a64Hasher")]
     sdm_c, sdm_o = by_role("sdm", False), by_role("sdm", True)
     n_f = 0
     if upd:
@@ -456,12 +456,12 @@ def run(run_, ctx):
     for f in hasher_update[:1]:
         summ2.check(run_, "F", f, fold_spec("arg2", "self.state", True), F, what="streaming hasher: state ^= byte, then *= prime, bytes in index order", key="Fnv1a64Hasher::update",
                     inline=lambda f_, ev: f_.crate == "postcard_schema")
-    new = [f for f in sc.fns if "::key::hash::" in f.canon and f.name == "new" and f.impl_self]
+    new = [f for f in sc.fns if "::key::" in f.canon and f.name == "new" and (f.impl_self or "").split("<")[0].endswith("Fnv1a64Hasher")]
     for f in new[:1]:
         got = [o["text"] for o in summ2.summarize(F, f)["outcomes"]]
         run_.check(got == ["- => Fnv1a64Hasher{state: %d}" % BASIS], "F", "Fnv1a64Hasher::new", "wrong offset basis", f.where(), found=got)
     # path hashing: all path bytes from the offset basis, then the schema; little-endian digest
-    paths = [f for f in sc.fns if "::key::hash::" in f.canon and f.locals[0]["ty"] == "[u8; 8]" and f.argc >= 1 and f.locals[1]["ty"].replace("'_ ", "") == "&str"
+    paths = [f for f in sc.fns if "::key::" in f.canon and "::test" not in f.canon and f.locals[0]["ty"] == "[u8; 8]" and f.argc >= 1 and f.locals[1]["ty"].replace("'_ ", "") == "&str"
              and "{" not in f.canon.split("::")[-1]]
     for f in paths:
         owned = f.argc == 2
